@@ -66,14 +66,24 @@ fn dense_holidays() -> ContextHolidays {
 /// (call name, outcome, work, span in days the work bound may depend on)
 type CallRes = (String, String, u64, i64);
 
+static GAVE_UP: std::sync::atomic::AtomicBool = std::sync::atomic::AtomicBool::new(false);
+
 fn measured<T>(name: String, span: i64, secs: u64, f: impl FnOnce() -> T + Send + 'static) -> CallRes
 where
     T: Send + 'static,
 {
+    // once a call on this input did not return, its thread keeps running: the remaining calls on the same input are not made
+    // (one expiry is enough for the verdict, and the leftover thread would slow them down)
+    if GAVE_UP.load(std::sync::atomic::Ordering::SeqCst) {
+        return (name, "skipped".into(), 0, span);
+    }
     match with_timeout(secs, move || guarded(f).map(|_| ())) {
         Some((Ok(()), work)) => (name, "ok".into(), work, span),
         Some((Err(p), work)) => (name, format!("panic: {}", p.chars().take(120).collect::<String>()), work, span),
-        None => (name, "timeout".into(), 0, span),
+        None => {
+            GAVE_UP.store(true, std::sync::atomic::Ordering::SeqCst);
+            (name, "timeout".into(), 0, span)
+        }
     }
 }
 
@@ -110,6 +120,7 @@ where
 
 pub fn event(id: u64, input: &str, rng: &mut Rng, secs: u64, full: bool, light: u64) -> Value {
     let mut calls: Vec<CallRes> = Vec::new();
+    GAVE_UP.store(false, std::sync::atomic::Ordering::SeqCst);
     let src = input.to_string();
     let parsed = {
         let s = src.clone();
@@ -162,7 +173,7 @@ pub fn event(id: u64, input: &str, rng: &mut Rng, secs: u64, full: bool, light: 
 
             if !full && !rng.chance(1, light) {
                 return json!({"id": id, "input": input,
-                              "calls": calls.iter().map(|(c, o, w, s)| json!([c, o, w, s])).collect::<Vec<_>>()});
+                              "calls": calls.iter().filter(|(_, o, _, _)| o != "skipped").map(|(c, o, w, s)| json!([c, o, w, s])).collect::<Vec<_>>()});
             }
 
             let zones: [Tz; 4] = [chrono_tz::Europe::Paris, chrono_tz::Pacific::Apia, chrono_tz::Australia::Lord_Howe, chrono_tz::America::St_Johns];
@@ -199,7 +210,7 @@ pub fn event(id: u64, input: &str, rng: &mut Rng, secs: u64, full: bool, light: 
     }
 
     json!({"id": id, "input": input,
-           "calls": calls.iter().map(|(c, o, w, s)| json!([c, o, w, s])).collect::<Vec<_>>()})
+           "calls": calls.iter().filter(|(_, o, _, _)| o != "skipped").map(|(c, o, w, s)| json!([c, o, w, s])).collect::<Vec<_>>()})
 }
 
 /// Seeded noise: byte-level and Unicode mutations of a sentence.
@@ -239,7 +250,7 @@ pub fn record(args: &Args) {
     let every = args.get_u64("every", 1);
     let part = args.get_u64("part", 0);
     let parts = args.get_u64("parts", 1);
-    let secs = args.get_u64("event-timeout", 30);
+    let secs = args.get_u64("event-timeout", 75);
     let light = args.get_u64("light", 1).max(1);
     let extremes_every = args.get_u64("extremes-every", 1).max(1);
     let mut inputs: Vec<String> = Vec::new();
